@@ -654,7 +654,7 @@ Definition sat_cache (W : world) (l : list N) : sdb := fold_left (fun D a => loa
 
 Definition clean_inv (W : world) (D : sdb) : Prop :=
   journal D = [] /\ dirties D = ∅ /\
-  forall a o, objs D !! a = Some o -> o = mkobj (zg (bank W) a) ∅ ∅ ∅ false.
+  forall a o, objs D !! a = Some o -> o = clean_obj W a.
 
 Lemma load_clean_inv W D a : clean_inv W D -> clean_inv W (load W D a).
 Proof.
